@@ -2,7 +2,7 @@
 # for every confirmed seeded change: apply it to /repo's working tree, run the Verus tier once plus the quick check of its target property, undo
 cd "$(dirname "$0")/.."
 for d in seeded/*/; do
-  id=$(basename $d); pid=${id%%-*}
+  id=$(basename $d); pid=$(echo ${id%%-*} | cut -c1-3)
   echo "=== $id"
   python3 tools/seed_eval.py /verif/$d/patch.diff --check $pid 2>&1 | grep -v WARNING | cut -c1-500
 done
